@@ -21,7 +21,7 @@ ASSUMPTIONS = ['single instance, single attribute (independence of instances is 
 PROBES = ['switch_inside_augmented_assignment', 'statements_in_active_object_handler', 'one_source_line_with_objects_of_two_classes']
 PLAN = {
   'quick': {'strata': {'threads': 6000, 'active-object': 1500, 'shared-lines': 2500}, 'wall_s': 300, 'chunk': 100, 'min_conclusive': 1000},
-  'thorough': {'strata': {'threads': 150000, 'active-object': 40000, 'shared-lines': 60000}, 'wall_s': 900, 'chunk': 250, 'min_conclusive': 10000},
+  'thorough': {'strata': {'threads': 150000, 'active-object': 40000, 'shared-lines': 60000}, 'wall_s': 900, 'chunk': 250, 'min_conclusive': 1000},
 }
 OPS = {'+=': operator.add, '-=': operator.sub, '*=': operator.mul, '//=': operator.floordiv, '**=': operator.pow,
        '<<=': operator.lshift, '>>=': operator.rshift, '|=': operator.or_, '&=': operator.and_, '^=': operator.xor,
